@@ -102,3 +102,35 @@ func dbgArm(c *Ctx, r *Report) {
 	}
 	r.ok("dbg", "x", "")
 }
+
+func init() { register("DBGADD", "other", dbgAdd) }
+
+func dbgAdd(c *Ctx, r *Report) {
+	m, _ := c.vmModel()
+	seen := map[string]bool{}
+	for _, n := range []string{"opADD", "opMUL", "opEQ", "opLT"} {
+		for _, p := range m.Arms[n].Paths {
+			if p.Abort {
+				continue
+			}
+			var ss []string
+			for _, e := range p.Events {
+				if e.Kind == "call" && !strings.HasPrefix(e.Detail, "printStack") && !strings.HasPrefix(e.Detail, "Prog.disasm") && !strings.HasPrefix(e.Detail, "is") {
+					ss = append(ss, e.Detail)
+				}
+				if e.Kind == "if" && strings.HasSuffix(e.Detail, "=true") && !strings.HasPrefix(e.Detail, "?") {
+					ss = append(ss, "IF "+e.Detail)
+				}
+				if e.Kind == "stk:w" {
+					ss = append(ss, "W "+e.Detail+" "+e.Val.String())
+				}
+			}
+			k := n + " " + strings.Join(ss, " ; ")
+			if !seen[k] {
+				seen[k] = true
+				fmt.Println(k)
+			}
+		}
+	}
+	r.ok("dbg", "x", "")
+}
